@@ -187,6 +187,13 @@ EXPRS = [
     "np.iinfo(np.array([1], dtype=np.int16).dtype).max",
     "np.array([300, -1, 5])[(np.array([300, -1, 5]) >= 0) & (np.array([300, -1, 5]) <= 255)].astype(np.uint8)",
     "np.array([], dtype=float)[np.array([], dtype=float) >= 0].astype(np.uint8)",
+    "np.minimum(np.array([1, 2], dtype=np.int32), 2**40)",
+    "np.array([1, 2], dtype=np.int32) + 2**31",
+    "np.array([1, 2], dtype=np.int32) <= 2**40",
+    "np.array([1, 2], dtype=np.uint8) + 255",
+    "np.array([1, 2], dtype=np.uint8) + 256",
+    "np.array([1, 2], dtype=np.uint8) - (-1)",
+    "np.array([1, 2], dtype=np.int32) + (2**31 - 1)",
 ]
 
 RUNNER = r'''
